@@ -4,7 +4,7 @@
    N, positive, Z, nat stay the extracted inductive datatypes. *)
 From Coq Require Extraction.
 From Coq Require Import ExtrOcamlBasic.
-From PL Require Import Model.Base Model.Order Model.Queue Model.Level Model.Conc Spec.MatchSpec Spec.Iface.
+From PL Require Import Model.Base Model.Order Model.Queue Model.Level Model.Conc Spec.MatchSpec Spec.Iface Spec.QueueSpec.
 
 Extraction Language OCaml.
 
@@ -16,4 +16,5 @@ Extraction "../modelrun/model.ml"
   result_new add_transaction add_filled
   snapshot_of refresh from_snapshot from_data
   i_cons_b same_identity_b
-  shared_of_level level_of_shared thread_init accept exec cstep quiescent thread_finished ev_eqb.
+  shared_of_level level_of_shared thread_init accept exec cstep quiescent thread_finished ev_eqb
+  step_f step_q busy_after abs.
